@@ -458,6 +458,7 @@ func (x *runner) rxReplay(acts []rxAction, class string) {
 		x.res.Fail("C06/harness/setup", err.Error(), nil)
 		return
 	}
+	setCurrent(rxCase{Mode: "receipts", Actions: acts})
 	for _, a := range acts {
 		run.do(a)
 		if a.Op == "snap" && !run.failed {
@@ -529,6 +530,7 @@ func (x *runner) rxWalk(r *hx.Rand, maxSenders, steps int) {
 			}
 		}
 		acts = append(acts, a)
+		setCurrent(rxCase{Mode: "receipts", Actions: acts})
 		run.do(a)
 		if a.Op == "snap" && !run.failed {
 			x.rxEmit(run, acts, "snapshot")
